@@ -424,6 +424,7 @@ def _keys_and_identity(ctx, loader, master, func, graph, facts):
                'the identity forced is the recorded one',
                construct='forced value')
     forced_identity(ctx)
+    _iteration_outcomes(ctx, func, graph, roles, defs)
     # a failed restore deletes the record
     tests = [n for n in graph.nodes if n.kind == 'test' and
              N.txt(n.ast) in roles['result']]
@@ -446,6 +447,51 @@ def _keys_and_identity(ctx, loader, master, func, graph, facts):
                    'a placement that cannot be restored has its record '
                    'deleted', path=K.describe(path) if path else None,
                    construct='failed restore deletes the record')
+
+
+def _iteration_outcomes(ctx, func, graph, roles, defs):
+    """C11.4: every way an iteration of the walk over the recorded instances
+    can end is one of: the instance is back on the server (the restore
+    result holds), its record is deleted, or the record was not there to
+    begin with (the not-found handler of the read).  A record that stays
+    while the model has nothing for it is a placement the restarted master
+    publishes without knowing it."""
+    walks = [n for n in graph.nodes if n.kind == 'for' and
+             N.txt(n.ast.iter) in roles['listing']]
+    ctx.require(walks, 'walk over the recorded instances', rule='C11.4',
+                func=func)
+
+    def deletes(node):
+        return any(K.is_meth(c, 'delete') and c.args and
+                   M.is_record_path(c.args[0], defs) is not None
+                   for c in C.node_calls(node))
+
+    def settled(node):
+        if deletes(node):
+            return True
+        if node.kind == 'handler' and node.ast is not None and \
+                node.ast.type is not None and \
+                'NotFound' in N.txt(node.ast.type):
+            return True
+        return False
+
+    def restored_edge(edge):
+        node = edge.src
+        if node.kind != 'test' or node.ast is None:
+            return False
+        text = N.txt(node.ast)
+        return text in roles['result'] and edge.kind == 'true'
+    for walk in walks:
+        path = K.find_path_cp(graph, walk, [walk, graph.exit],
+                              cut_node=settled, cut_edge=lambda e, w=walk:
+                              restored_edge(e) or
+                              (e.src is w and e.kind == 'done'),
+                              follow_exc=True)
+        ctx.ob('C11.4', func, walk, path is None,
+               'an iteration over the recorded instances ends with the '
+               'instance restored, its record deleted, or no record found',
+               path=K.describe(path) if path else None,
+               construct='every unrestored record is deleted')
 
 
 def _nothing_else(ctx, loader, func):
